@@ -340,7 +340,8 @@ def Op.avoids (n : Name) : Op → Bool
 
 /-! ### protocol: `MCACHE bad=<hex>,… <op>…`
 
-  ops  `G:<hex>`              lou_getTable
+  ops  `G:<hex>`              lou_getTable (the pointer is shown to the caller: numbered)
+       `H:<hex>`              lou_getTable inside lou_hyphenate / lou_checkTable (pointer not shown)
        `T:<hextr>:<hexdisp>`  _lou_getTable (translate, back-translate)
        `X:<hex>`              _lou_getTranslationTable
        `D:<hex>`              _lou_getDisplayTable (character/dot conversion)
@@ -360,6 +361,7 @@ def parseBool (s : String) : Option Bool :=
 def parseOp (t : String) : Option Op :=
   match t.splitOn ":" with
   | ["G", h] => (parseName h).map fun n => .get (some n) (some n) true
+  | ["H", h] => (parseName h).map fun n => .get (some n) (some n) true
   | ["T", a, b] => do
     let a ← parseName a
     let b ← parseName b
